@@ -1514,10 +1514,13 @@ def rt_lateattr(req):
         problems.append('history-dependent: after a retrieval made before %s.egg was assigned (which gave %s), retrievals give %s; '
                         'on a twin that had egg from the start %s (variant %s)' % (type(late).__name__, first, got, want, variant))
     if not want[0].startswith('raised'):
-        sig = inspect.signature(get(late))
+        # inspect only knows the declaration when it is emulated (as_forged); otherwise the claim is about sigtools.signature
+        with warnings.catch_warnings():
+            warnings.simplefilter('ignore')
+            sig = (sigtools.signature if variant == 'plain' else inspect.signature)(get(late))
         for a, c in _probe_calls(sig, get(late), [((1,), {}), ((1, 2), {}), ((1, 2, 3), {}), ((1, 2, 3, 4), {}), ((1,), {'b': 1}), ((), {})]):
             if a and not c:
-                problems.append('signature-unsound: inspect.signature reports %s, which accepts a call that raises TypeError (variant %s)' % (sig, variant))
+                problems.append('signature-unsound: the reported signature %s accepts a call that raises TypeError (variant %s)' % (sig, variant))
                 break
         del sig
     ref = weakref.ref(late)
